@@ -225,3 +225,307 @@ Proof.
     rewrite find_add in H. destruct (N.eq_dec s sid); [congruence|assumption].
   - apply IH in H. exact H.
 Qed.
+
+(* --- the lifecycle side: deletion only touches the deleted cells --- *)
+
+Lemma kill_pos_ge l : forall s pos k, snd (l_kill s l pos) = Some k -> (pos <= k)%nat.
+Proof.
+  induction l as [|e l IH]; intros s pos k H; cbn [l_kill] in H; [discriminate|].
+  destruct (l_is_alive s e).
+  - apply IH in H. lia.
+  - cbn in H. inversion H. lia.
+Qed.
+
+Definition killed_of (es : list entity) (r : option nat) (pos : nat) : list entity :=
+  match r with None => es | Some k => firstn (k - pos) es end.
+
+Lemma kill_cell_other l : forall s pos i,
+  ~ In i (map fst (killed_of l (snd (l_kill s l pos)) pos)) -> cell (fst (l_kill s l pos)) i = cell s i.
+Proof.
+  induction l as [|e l IH]; intros s pos i H; cbn [l_kill] in *; [reflexivity|].
+  destruct (l_is_alive s e) eqn:A; [|reflexivity].
+  assert (i <> fst e /\ ~ In i (map fst (killed_of l (snd (l_kill (set_cell s (fst e) (Free (snd e))) l (S pos))) (S pos)))) as [H1 H2].
+  { unfold killed_of in *. destruct (snd (l_kill (set_cell s (fst e) (Free (snd e))) l (S pos))) as [k|] eqn:Ek.
+    - pose proof (kill_pos_ge _ _ _ _ Ek) as Hk. replace (k - pos)%nat with (S (k - S pos)) in H by lia.
+      cbn [firstn map In] in H. split; [intros ->; apply H; left; reflexivity | intros X; apply H; right; exact X].
+    - cbn [map In] in H. split; [intros ->; apply H; left; reflexivity | intros X; apply H; right; exact X]. }
+  rewrite IH by exact H2. rewrite cell_set. destruct (N.eq_dec (fst e) i); [congruence|reflexivity].
+Qed.
+
+Lemma kill_res_cell_other s es i :
+  ~ In i (map fst (match snd (l_kill_res s es) with None => es | Some (pos, _) => firstn pos es end)) ->
+  cell (fst (l_kill_res s es)) i = cell s i.
+Proof.
+  unfold l_kill_res. pose proof (kill_cell_other es s 0%nat i) as X. unfold killed_of in X.
+  destruct (l_kill s es 0) as [s' [k|]]; cbn [fst snd] in *.
+  - rewrite Nat.sub_0_r in X. exact X.
+  - exact X.
+Qed.
+
+Lemma merge_deleted_spec s i : dies_at_merge (cell s i) = true -> In i (map fst (snd (l_merge s))).
+Proof.
+  intros H. unfold l_merge. cbn [snd]. rewrite map_map. cbn [fst].
+  unfold cell in H. destruct (NM.find i (cells s)) as [c|] eqn:E; [|discriminate].
+  apply in_map_iff. exists (i, c). split; [reflexivity|]. apply filter_In. split; [apply in_elements_cell; assumption|exact H].
+Qed.
+
+Lemma merge_cell_occupied c : occupied c = true -> dies_at_merge c = false -> occupied (merge_cell c) = true.
+Proof. destruct c as [|g|g [|]|g [|]]; cbn; congruence. Qed.
+
+Lemma create_cell_occupied pend s i j : occupied (cell s j) = true -> occupied (cell (fst (l_create pend s i)) j) = true.
+Proof. intros H. rewrite cell_create. destruct (N.eq_dec i j); [destruct pend; reflexivity | exact H]. Qed.
+
+Lemma kill_def_cell_occupied s e j : occupied (cell s j) = true -> occupied (cell (fst (l_kill_def s e)) j) = true.
+Proof.
+  intros H. unfold l_kill_def. destruct (l_is_alive s e); [|exact H]. cbn [fst]. rewrite cell_set.
+  destruct (N.eq_dec (fst e) j) as [->|]; [destruct (cell s j); cbn in *; congruence | exact H].
+Qed.
+
+(* --- the invariant is preserved by every step --- *)
+
+Lemma PInv_init b : PInv (s_init_env b).
+Proof.
+  split; cbn.
+  - apply EInv_init.
+  - intros sid ms i H. discriminate.
+  - intros sid H. exfalso. apply H. reflexivity.
+  - apply LInv_init.
+Qed.
+
+Lemma masks_live_mono s s' e : (forall j, occupied (cell s j) = true -> occupied (cell s' j) = true) ->
+  masks_live s e -> masks_live s' e.
+Proof. intros H M sid ms i Hf Hm. apply H. apply (M sid ms i Hf Hm). Qed.
+
+Lemma PInv_create pend w i : PInv w -> valid_choice (s_life w) i = true ->
+  PInv (fst (s_create pend w i)).
+Proof.
+  intros [HE HL HT HI] Hv. pose proof (s_create_envE pend w i) as E. pose proof (s_create_life pend w i) as L.
+  destruct (s_create pend w i) as [w1 e]. cbn [fst] in *. split; rewrite ?E, ?L; auto.
+  - apply (masks_live_mono (s_life w)); [|assumption]. intros j. apply create_cell_occupied.
+  - apply create_LInv; assumption.
+Qed.
+
+Lemma PInv_create_n pend n : forall w cs, PInv w -> s_ok (fst (s_create_n pend n w cs)) = true ->
+  PInv (fst (s_create_n pend n w cs)).
+Proof.
+  induction n as [|n IH]; intros w cs HP Hok; cbn [s_create_n] in *; [assumption|].
+  destruct cs as [|i cs]; [cbn in Hok; discriminate|].
+  pose proof (s_create_ok pend w i) as O1. pose proof (PInv_create pend w i HP) as P1.
+  destruct (s_create pend w i) as [w1 e]. cbn [fst] in *.
+  pose proof (s_create_n_spec pend n w1 cs) as [X1 _]. specialize (IH w1 cs).
+  destruct (s_create_n pend n w1 cs) as [w2 l]. cbn [fst] in *.
+  destruct (X1 Hok) as [Ok1 _]. rewrite O1 in Ok1. apply andb_true_iff in Ok1. destruct Ok1 as [_ Hv].
+  apply IH; [apply P1; exact Hv | exact Hok].
+Qed.
+
+Lemma env_sop_go_pinv s e so ent : EInv e -> masks_live s e -> table_covers e ->
+  NM.find (sop_sid so) (se_stores e) <> None ->
+  let go := match NM.find (sop_sid so) (se_stores e) with
+            | Some ms => let '(ms1, out, c1) := ms_sop ms (l_view s) ent so (se_cx e) in (env_put e (sop_sid so) ms1 c1, out)
+            | None => (env_fail e, WSkip) end in
+  masks_live s (fst go) /\ table_covers (fst go).
+Proof.
+  intros HE HL HT Hreg. cbv zeta. destruct (NM.find (sop_sid so) (se_stores e)) as [a|] eqn:Ea; [|congruence].
+  destruct (EI_stores _ HE _ _ Ea) as [m Hm].
+  pose proof (ms_sop_mask a m (l_view s) ent so (se_cx e) Hm) as Hmask.
+  destruct (ms_sop a (l_view s) ent so (se_cx e)) as [[a1 o1] c1]. cbn [fst env_put se_stores se_table] in *. split.
+  - intros j ms i Hf Hmi. cbn [fst env_put se_stores] in Hf. rewrite find_add in Hf.
+    destruct (N.eq_dec (sop_sid so) j) as [<-|]; [|apply (HL j ms i Hf Hmi)].
+    inversion Hf; subst ms. destruct (Hmask i Hmi) as [G|[-> G]]; [apply (HL _ a i Ea G)|].
+    cbn [l_view av_alive] in G. destruct (alive_top _ _ G) as [_ Ho]. exact Ho.
+  - intros j Hj. cbn [fst env_put se_stores se_table] in *. rewrite find_add in Hj.
+    destruct (N.eq_dec (sop_sid so) j) as [<-|]; apply HT; congruence.
+Qed.
+
+Ltac sop_case :=
+  match goal with
+  | HE : EInv ?e, HL : masks_live ?s ?e, HT : table_covers ?e, Hc : _ \/ _ |- context [env_sop ?e (l_view ?s) ?hs ?so] =>
+      let x := fresh in let Hx := fresh in let Hreg := fresh in let Hk := fresh in let A := fresh in
+      destruct Hc as [[x Hx]|[Hreg Hk]]; [discriminate|];
+      destruct (sop_ok e (l_view s) hs so HE Hreg Hk) as [A _]; split; [exact A|];
+      unfold env_sop; cbn [sop_handle];
+      try (match goal with |- context [pv_get hs (N.of_nat ?h)] =>
+             destruct (pv_get hs (N.of_nat h)); [|cbn [fst]; split; assumption] end);
+      apply (env_sop_go_pinv s e so _ HE HL HT Hreg)
+  end.
+
+Lemma env_sop_pinv s e hs so : EInv e -> masks_live s e -> table_covers e ->
+  op_regs_ok e (OStore so) = true ->
+  let e' := fst (env_sop e (l_view s) hs so) in EInv e' /\ masks_live s e' /\ table_covers e'.
+Proof.
+  intros HE HL HT Hr. cbn zeta. cbn [op_regs_ok] in Hr.
+  assert ((exists sid, so = SRegister sid) \/ (NM.find (sop_sid so) (se_stores e) <> None /\ kind_of (sop_sid so) <> None)) as Hc.
+  { destruct so; try (right; apply andb_true_iff in Hr; destruct Hr as [R1 R2]; split;
+      [apply registered_true; exact R1 | unfold valid_sid in R2; destruct (kind_of _); [discriminate|discriminate]]).
+    left. eexists. reflexivity. }
+  destruct so as [sid h v|sid h|sid h t nv|sid h|sid h|sid|sid|sid|sid|sid|sid|sid h eo|sid h|sid|sid|sid k|sid b].
+  14:{ (* register *)
+    cbn [env_sop fst]. unfold valid_sid in Hr. destruct (register_ok e sid HE) as [A [B [C D]]].
+    { destruct (kind_of sid); [discriminate|discriminate]. }
+    split; [assumption|]. unfold env_register in *. destruct (kind_of sid) as [[k w]|]; [|discriminate].
+    destruct (NM.find sid (se_stores e)) as [a|] eqn:Es; cbn [se_stores se_table] in *.
+    - split; [exact HL|]. intros j Hj. cbn [se_stores se_table] in *. destruct (existsb (N.eqb sid) (se_table e)); [|apply in_or_app; left]; apply HT; assumption.
+    - split.
+      + intros j ms i Hf Hm. cbn [se_stores] in Hf. rewrite find_add in Hf. destruct (N.eq_dec sid j); [|apply (HL j ms i Hf Hm)].
+        inversion Hf; subst ms. cbn [ms_new ms_mask] in Hm. rewrite NSF.empty_b in Hm. discriminate.
+      + intros j Hj. cbn [se_stores se_table] in *. rewrite find_add in Hj. destruct (existsb (N.eqb sid) (se_table e)) eqn:Ex.
+        * destruct (N.eq_dec sid j) as [<-|]; [|apply HT; assumption].
+          apply existsb_exists in Ex. destruct Ex as [x [Hx Hxe]]. apply N.eqb_eq in Hxe. subst x. assumption.
+        * apply in_or_app. destruct (N.eq_dec sid j) as [<-|]; [right; left; reflexivity | left; apply HT; assumption]. }
+  all: sop_case.
+Qed.
+
+(* the step theorem, for histories that register components before use and whose choices are valid *)
+Theorem sstep_core_pinv w o cs : PInv w -> cx_stuck (se_cx (s_env w)) = false -> op_regs_ok (s_env w) o = true ->
+  s_ok (fst (sstep_core w o cs)) = true -> s_ok w = true -> PInv (fst (sstep_core w o cs)).
+Proof.
+  intros HP Hst Hr Hok' Hok. pose proof HP as [HE HL HT HI].
+  assert (SInvE w) as HS by (split; assumption).
+  (* creation followed by attaching components *)
+  assert (forall pend i k, comps_ok (s_env w) k = true -> s_ok (fst (s_create pend w i)) = true ->
+            let '(w1, e) := s_create pend w i in PInv (s_insert_comps w1 e k)) as Hcr.
+  { intros pend i k Hk Hok1. rewrite s_create_ok in Hok1. apply andb_true_iff in Hok1. destruct Hok1 as [_ Hv].
+    pose proof (PInv_create pend w i HP Hv) as P1. pose proof (s_create_envE pend w i) as E.
+    pose proof (s_create_life pend w i) as L. pose proof (s_create_ent pend w i) as En.
+    destruct (s_create pend w i) as [w1 e]. cbn [fst snd] in *. destruct P1 as [E1 L1 T1 I1].
+    assert (l_is_alive (s_life w1) e = true) as Ha by (rewrite L, En; apply life_alive_on_return).
+    unfold s_insert_comps.
+    destruct (insert_comps_ok k (s_env w1) (l_view (s_life w1)) e E1 Ha) as [A1 [A2 A3]].
+    { rewrite E. apply comps_ok_spec. assumption. }
+    split; cbn [s_with_env s_env s_life]; auto.
+    - intros sid ms' j Hf Hm.
+      destruct (insert_comps_masks k (s_env w1) (l_view (s_life w1)) e E1 sid ms' j Hf Hm) as [[ms [F1 F2]]|[-> _]].
+      + apply (L1 sid ms j F1 F2).
+      + destruct (alive_top _ _ Ha) as [_ Ho]. exact Ho.
+    - intros sid Hs. rewrite insert_comps_table. apply T1. apply (insert_comps_dom k _ _ _ sid Hs). }
+  (* immediate deletion followed by the purge *)
+  assert (forall es, PInv (s_purge_killed (with_life w (fst (l_kill_res (s_life w) es))) es (snd (l_kill_res (s_life w) es)))) as Hkill.
+  { intros es. unfold s_purge_killed. cbn [with_life s_env s_life s_with_env].
+    set (killed := match snd (l_kill_res (s_life w) es) with None => es | Some (pos, _) => firstn pos es end).
+    destruct (delete_components_ok (s_env w) killed HE) as [D1 [D2 D3]].
+    split; cbn [s_with_env s_env s_life]; auto.
+    - intros sid ms' j Hf Hm.
+      destruct (delete_components_masks (s_env w) killed HE HT sid ms' j Hf Hm) as [ms [F1 [F2 F3]]].
+      cbn [with_life s_life]. rewrite (kill_res_cell_other (s_life w) es j F3). apply (HL sid ms j F1 F2).
+    - apply delete_components_covers. assumption.
+    - unfold l_kill_res. pose proof (kill_LInv es (s_life w) 0%nat HI) as X.
+      destruct (l_kill (s_life w) es 0) as [s' [p|]]; exact X. }
+  destruct o as [k|k|n| |n|built k|k|h|hs|h| | |h|h| |h| |so| | ]; cbn [sstep_core op_regs_ok] in *.
+  - specialize (Hcr false (hd_choice cs) k Hr). destruct (s_create false w (hd_choice cs)) as [w1 e]. apply Hcr. exact Hok'.
+  - specialize (Hcr false (hd_choice cs) k Hr). destruct (s_create false w (hd_choice cs)) as [w1 e]. cbn [fst] in *.
+    apply s_builder_drop_ok in Hok'. specialize (Hcr Hok'). destruct Hcr as [A B C D].
+    split; rewrite ?s_builder_drop_envE, ?s_builder_drop_life; auto.
+    + apply (masks_live_mono (s_life (s_insert_comps w1 e k))); [|assumption]. intros j. apply kill_def_cell_occupied.
+    + apply kill_def_LInv. assumption.
+  - pose proof (PInv_create_n false n w cs HP) as X. destruct (s_create_n false n w cs) as [w1 l]. apply X. exact Hok'.
+  - pose proof (s_create_ok true w (hd_choice cs)) as O1. pose proof (PInv_create true w (hd_choice cs) HP) as P1.
+    destruct (s_create true w (hd_choice cs)) as [w1 e]. cbn [fst] in *. rewrite O1 in Hok'.
+    apply andb_true_iff in Hok'. apply P1. tauto.
+  - pose proof (PInv_create_n true n w cs HP) as X. destruct (s_create_n true n w cs) as [w1 l]. apply X. exact Hok'.
+  - specialize (Hcr true (hd_choice cs) k Hr). destruct (s_create true w (hd_choice cs)) as [w1 e]. cbn [fst] in *.
+    destruct built; [apply Hcr; exact Hok'|].
+    apply s_builder_drop_ok in Hok'. specialize (Hcr Hok'). destruct Hcr as [A B C D].
+    split; rewrite ?s_builder_drop_envE, ?s_builder_drop_life; auto.
+    + apply (masks_live_mono (s_life (s_insert_comps w1 e k))); [|assumption]. intros j. apply kill_def_cell_occupied.
+    + apply kill_def_LInv. assumption.
+  - pose proof (s_create_ok true w (hd_choice cs)) as O1. pose proof (PInv_create true w (hd_choice cs) HP) as P1.
+    destruct (s_create true w (hd_choice cs)) as [w1 e]. cbn [fst] in *. rewrite O1 in Hok'.
+    apply andb_true_iff in Hok'. apply P1. tauto.
+  - destruct (hget (s_hs w) h) as [e|]; [|assumption]. specialize (Hkill [e]).
+    destruct (l_kill_res (s_life w) [e]) as [s' r]. exact Hkill.
+  - destruct (hget_all (s_hs w) hs) as [es|]; [|assumption]. specialize (Hkill es).
+    destruct (l_kill_res (s_life w) es) as [s' r]. exact Hkill.
+  - destruct (hget (s_hs w) h) as [e|]; [|assumption].
+    pose proof (kill_def_LInv (s_life w) e HI) as X. pose proof (kill_def_cell_occupied (s_life w) e) as Y.
+    destruct (l_kill_def (s_life w) e) as [s' ok]. cbn [fst] in *. split; cbn [with_life s_env s_life]; auto.
+    apply (masks_live_mono (s_life w)); assumption.
+  - specialize (Hkill (l_entities (s_life w))).
+    destruct (l_kill_res (s_life w) (l_entities (s_life w))) as [s' r]. cbn [fst snd] in *.
+    destruct r; [destruct Hkill as [A B C D]; split; assumption | exact Hkill].
+  - (* maintain *)
+    pose proof (merge_LInv (s_life w) HI) as X. pose proof (cell_merge (s_life w)) as Cm.
+    pose proof (merge_deleted_spec (s_life w)) as Md.
+    destruct (l_merge (s_life w)) as [s' d]. cbn [fst snd] in *. destruct d as [|x d].
+    + split; cbn [with_life s_env s_life]; auto.
+      intros sid ms j Hf Hm. rewrite Cm. specialize (HL sid ms j Hf Hm).
+      apply merge_cell_occupied; [assumption|]. destruct (dies_at_merge (cell (s_life w) j)) eqn:Ed; [|reflexivity].
+      destruct (Md j Ed).
+    + destruct (delete_components_ok (s_env w) (x :: d) HE) as [D1 [D2 D3]].
+      split; cbn [s_with_env with_life s_env s_life]; auto.
+      * intros sid ms' j Hf Hm.
+        destruct (delete_components_masks (s_env w) (x :: d) HE HT sid ms' j Hf Hm) as [ms [F1 [F2 F3]]].
+        rewrite Cm. apply merge_cell_occupied; [apply (HL sid ms j F1 F2)|].
+        destruct (dies_at_merge (cell (s_life w) j)) eqn:Ed; [|reflexivity]. exfalso. apply F3. apply Md. exact Ed.
+      * apply delete_components_covers. assumption.
+  - destruct (hget (s_hs w) h); assumption.
+  - destruct (hget (s_hs w) h); assumption.
+  - assumption.
+  - destruct (hget (s_hs w) h); assumption.
+  - assumption.
+  - (* a storage operation *)
+    destruct (env_sop_pinv (s_life w) (s_env w) (s_hs w) so HE HL HT Hr) as [A [B C]].
+    destruct (env_sop (s_env w) (l_view (s_life w)) (s_hs w) so) as [e' out]. cbn [fst] in *.
+    split; cbn [s_with_env s_env s_life]; assumption.
+  - (* drop(world) *)
+    cbn [fst]. split; cbn [s_with_env s_env s_life]; auto.
+    + unfold env_drop_world. split; cbn [se_stores se_table]; [intros sid ms Hf; discriminate | intros sid []].
+    + intros sid ms i Hf. unfold env_drop_world in Hf. cbn [se_stores] in Hf. discriminate.
+    + intros sid Hf. unfold env_drop_world in Hf. cbn [se_stores] in Hf. exfalso. apply Hf. reflexivity.
+  - assumption.
+Qed.
+
+(* ------------------------------------------------------------------ *)
+(* whole histories and the consequences *)
+
+Lemma PInv_begin w : PInv w -> PInv (s_begin w).
+Proof.
+  intros [[S T] L C I]. unfold s_begin, env_begin. split; cbn; auto. split; cbn; auto.
+Qed.
+
+Theorem accepted_pinv tr : forall w pos, PInv w -> SInvE w -> s_ok w = true -> regs_ok w tr = true ->
+  saccept w tr pos = None -> PInv (fst (srun w tr)) /\ SInvE (fst (srun w tr)).
+Proof.
+  induction tr as [|[o out] tr IH]; intros w pos HP HS Hok Hr Hacc; [split; assumption|].
+  cbn [regs_ok] in Hr. apply andb_true_iff in Hr. destruct Hr as [R1 R2].
+  cbn [saccept] in Hacc. rewrite srun_cons. cbn [fst].
+  pose proof (sstep_ok w o (choices_of out) HS R1) as HS1.
+  assert (PInv (fst (sstep w o (choices_of out))) /\ s_ok (fst (sstep w o (choices_of out))) = true) as [HP1 Hok1].
+  { destruct (sstep w o (choices_of out)) as [w1 out1] eqn:Es. cbn [fst] in *.
+    destruct (s_ok w1) eqn:Ok1; [|discriminate]. split; [|reflexivity].
+    unfold sstep in Es. pose proof (sstep_core_pinv (s_begin w) o (choices_of out) (PInv_begin w HP)) as X.
+    rewrite Es in X. cbn [fst] in X. apply X; auto.
+    - destruct HS as [_ K]. exact K. }
+  destruct (sstep w o (choices_of out)) as [w1 out1]. cbn [fst] in *. rewrite Hok1 in Hacc. cbn [negb] in Hacc.
+  destruct (wout_eqb out out1); [|discriminate].
+  apply (IH w1 (S pos)); assumption.
+Qed.
+
+(* a newly created entity (in particular one that reuses a dead entity's index) has no component anywhere *)
+Theorem new_entity_has_no_component w i : PInv w -> valid_choice (s_life w) i = true ->
+  forall sid ms, NM.find sid (se_stores (s_env w)) = Some ms -> NS.mem i (ms_mask ms) = false.
+Proof.
+  intros HP Hv sid ms Hf. destruct (NS.mem i (ms_mask ms)) eqn:Hm; [|reflexivity].
+  pose proof (P_live _ HP sid ms i Hf Hm) as Ho.
+  destruct (valid_choice_cases _ _ Hv) as [[g E]|[E _]]; rewrite E in Ho; discriminate.
+Qed.
+
+(* when a deletion takes effect, the component is gone from every storage known to the world *)
+Theorem deletion_purges_everywhere e ents ent : EInv e -> table_covers e -> In ent ents ->
+  forall sid ms', NM.find sid (se_stores (env_delete_components e ents)) = Some ms' -> NS.mem (fst ent) (ms_mask ms') = false.
+Proof.
+  intros HE HT Hin sid ms' Hf. destruct (NS.mem (fst ent) (ms_mask ms')) eqn:Hm; [|reflexivity].
+  destruct (delete_components_masks e ents HE HT sid ms' (fst ent) Hf Hm) as [_ [_ [_ F3]]].
+  exfalso. apply F3. apply in_map. exact Hin.
+Qed.
+
+(* ... while every other entity keeps its component, unchanged *)
+Theorem purge_keeps_the_others ids : forall ms m c, MInv ms m ->
+  exists m', MInv (fst (m_drop_all ms ids c)) m' /\ forall j, ~ In j ids -> NM.find j m' = NM.find j m.
+Proof.
+  induction ids as [|x ids IH]; intros ms m c HM; cbn [m_drop_all]; [exists m; auto|].
+  pose proof (m_drop_char ms m x c HM) as X. destruct (m_drop ms x c) as [ms1 c1]. destruct X as [X1 _].
+  destruct (IH ms1 _ c1 X1) as [m' [H1 H2]]. exists m'. split; [exact H1|].
+  intros j Hj. rewrite H2 by (intros Hin; apply Hj; right; exact Hin).
+  destruct (NS.mem x (ms_mask ms)); [|reflexivity]. rewrite find_remove.
+  destruct (N.eq_dec x j) as [->|]; [exfalso; apply Hj; left; reflexivity | reflexivity].
+Qed.
